@@ -13,6 +13,13 @@ rules see.  Each rewrite is semantics-preserving for the code it is applied to (
       become the f-string `f'..{a}..{b}..'` (a tuple-valued single `%` operand is the one case where the originals differ
       from each other; the repository formats names, numbers and delimiters);
 
+  C6  negations are pushed inwards (negation normal form): `not (a or b)` -> `not a and not b`, `not (x in T)` -> `x not in T`
+      (ordering comparisons are left alone: `not (a <= b)` is not `a > b` for sets);
+  C7  `x = A if c else B` and `return A if c else B` become if statements with one assignment / return per branch.
+
+  C8  a counting loop `i = A; while i < B: ...; i += 1` (nothing else writes i or B, no jump in the body, i not used
+      afterwards) becomes `for i in range(A, B): ...`.
+
 Line numbers are kept (ast.copy_location), so reports still point into the source file.
 """
 import ast
@@ -125,8 +132,35 @@ def _from_percent(binop):
     return parts
 
 
+# ordering operators are NOT inverted: `not (a <= b)` is not `a > b` for sets (the validator compares sets of child names)
+INV = {ast.Eq: ast.NotEq, ast.NotEq: ast.Eq, ast.Is: ast.IsNot, ast.IsNot: ast.Is, ast.In: ast.NotIn, ast.NotIn: ast.In}
+
+
+def _negate(e):
+    """negation of a Boolean expression with `not` pushed inwards through and / or / not and the (in)equality, identity and
+    membership operators"""
+    if isinstance(e, ast.UnaryOp) and isinstance(e.op, ast.Not):
+        return e.operand
+    if isinstance(e, ast.BoolOp):
+        op = ast.Or() if isinstance(e.op, ast.And) else ast.And()
+        return ast.copy_location(ast.BoolOp(op=op, values=[_negate(v) for v in e.values]), e)
+    if isinstance(e, ast.Compare) and len(e.ops) == 1 and type(e.ops[0]) in INV:
+        return ast.copy_location(ast.Compare(left=e.left, ops=[INV[type(e.ops[0])]()], comparators=e.comparators), e)
+    return ast.copy_location(ast.UnaryOp(op=ast.Not(), operand=e), e)
+
+
 class Canon(ast.NodeTransformer):
     # ---- expressions
+    def visit_UnaryOp(self, node):
+        self.generic_visit(node)
+        if isinstance(node.op, ast.Not) and isinstance(node.operand, (ast.BoolOp, ast.UnaryOp)) or \
+                (isinstance(node.op, ast.Not) and isinstance(node.operand, ast.Compare) and len(node.operand.ops) == 1 and
+                 type(node.operand.ops[0]) in INV):
+            if isinstance(node.operand, ast.UnaryOp) and not isinstance(node.operand.op, ast.Not):
+                return node
+            return _negate(node.operand)     # C6: negation normal form
+        return node
+
     def visit_Call(self, node):
         self.generic_visit(node)
         parts = _from_format(node)
@@ -155,6 +189,35 @@ class Canon(ast.NodeTransformer):
             t, flipped = _positive(node.test)
             if flipped:
                 node.test, node.body, node.orelse = t, node.orelse, node.body
+        return node
+
+    def _expand_choice(self, node, make):
+        """C7: a statement whose whole value is a conditional expression becomes an if statement with one such statement
+        per branch (`x = A if c else B` -> `if c: x = A else: x = B`), so that branch-sensitive rules see one form only"""
+        v = node.value
+        if not isinstance(v, ast.IfExp):
+            return node
+        body = make(v.body)
+        orelse = make(v.orelse)
+        for n_ in (body, orelse):
+            ast.copy_location(n_, node)
+        new = ast.If(test=v.test, body=[self._expand_choice(body, make)] if isinstance(v.body, ast.IfExp) else [body],
+                     orelse=[self._expand_choice(orelse, make)] if isinstance(v.orelse, ast.IfExp) else [orelse])
+        ast.copy_location(new, node)
+        return new
+
+    def visit_Assign(self, node):
+        self.generic_visit(node)
+        if isinstance(node.value, ast.IfExp):
+            tg = node.targets
+            return self._expand_choice(node, lambda val: ast.Assign(targets=[copy.deepcopy(t) for t in tg], value=val,
+                                                                    type_comment=None))
+        return node
+
+    def visit_Return(self, node):
+        self.generic_visit(node)
+        if isinstance(node.value, ast.IfExp):
+            return self._expand_choice(node, lambda val: ast.Return(value=val))
         return node
 
     def visit_Expr(self, node):
@@ -201,8 +264,67 @@ class Canon(ast.NodeTransformer):
             return ex
         return node
 
+    @staticmethod
+    def _counting_while(stmts):
+        """C8: `i = A; ...; while i < B: body; i += 1` with nothing else touching i or B  ->  `for i in range(A, B): body`"""
+        out = list(stmts)
+        for k, st in enumerate(out):
+            if not (isinstance(st, ast.While) and not st.orelse and isinstance(st.test, ast.Compare) and
+                    len(st.test.ops) == 1 and isinstance(st.test.ops[0], (ast.Lt, ast.LtE)) and
+                    isinstance(st.test.left, ast.Name) and len(st.body) >= 2):
+                continue
+            i = st.test.left.id
+            bound = st.test.comparators[0]
+            last = st.body[-1]
+            if not (isinstance(last, ast.AugAssign) and isinstance(last.op, ast.Add) and isinstance(last.target, ast.Name) and
+                    last.target.id == i and isinstance(last.value, ast.Constant) and last.value.value == 1):
+                continue
+            body = st.body[:-1]
+            touched = set()
+            jumps = False
+            for b in body:
+                for x in ast.walk(b):
+                    if isinstance(x, ast.Name) and isinstance(x.ctx, (ast.Store, ast.Del)):
+                        touched.add(x.id)
+                    if isinstance(x, (ast.Continue, ast.Break, ast.Return)):
+                        jumps = True
+            if jumps or i in touched or (_names(bound) & touched) or \
+                    any(isinstance(x, ast.Call) for x in ast.walk(bound)):
+                continue
+            # the initialisation: the closest earlier statement of the block assigning i, nothing in between reading or writing i
+            init = None
+            for j in range(k - 1, -1, -1):
+                p_ = out[j]
+                if isinstance(p_, ast.Assign) and len(p_.targets) == 1 and isinstance(p_.targets[0], ast.Name) and \
+                        p_.targets[0].id == i:
+                    init = j
+                    break
+                if not isinstance(p_, ast.Assign) or i in _names(p_):
+                    break
+            if init is None:
+                continue
+            used_after = any(i in _names(x) for x in out[k + 1:])
+            if used_after:
+                continue
+            stop = bound if isinstance(st.test.ops[0], ast.Lt) else ast.BinOp(left=bound, op=ast.Add(), right=ast.Constant(value=1))
+            rng = ast.Call(func=ast.Name(id='range', ctx=ast.Load()), args=[out[init].value, stop], keywords=[])
+            loop = ast.For(target=ast.Name(id=i, ctx=ast.Store()), iter=rng, body=body, orelse=[], type_comment=None)
+            for n_ in (stop, rng, rng.func, loop, loop.target):
+                ast.copy_location(n_, st)
+            loop._from_while = True
+            out[k] = loop
+            del out[init]
+            return Canon._counting_while(out)
+        return out
+
     def _block(self, stmts):
         """pairwise clean-ups on a statement list (after the children were rewritten)"""
+        stmts = self._counting_while(stmts)
+        redo = []
+        for st in stmts:
+            r = self.visit_For(st) if isinstance(st, ast.For) and getattr(st, '_from_while', False) else st
+            redo.append(r)
+        stmts = redo
         out = []
         for st in stmts:
             prev = out[-1] if out else None
